@@ -34,7 +34,12 @@ def _traversal_calls(fn):
     return [n for n in ast.walk(fn) if isinstance(n, ast.Call) and dotted(n.func) in ('query_traversal', 'utils.query_traversal')]
 
 
+_PREDICATES = {}        # module-level one-line predicates `def f(x): return isinstance(x, ast.Parameter)` of planner/utils.py, filled per run
+
+
 def _is_parameter_test(t):
+    if isinstance(t, ast.Call) and isinstance(t.func, ast.Name) and t.func.id in _PREDICATES and len(t.args) == 1:
+        return True
     return isinstance(t, ast.Call) and dotted(t.func) == 'isinstance' and len(t.args) == 2 and \
         (dotted(t.args[1]) or '').split('.')[-1] == 'Parameter'
 
@@ -286,6 +291,13 @@ def run(ctx):
             ctx.ob(m, cons, True)
     ctx.setcount('walker_obligations', inherited)
     tree = ctx.src.tree(UTILS)
+    _PREDICATES.clear()
+    for n_ in tree.body:
+        if isinstance(n_, ast.FunctionDef) and len(n_.args.args) == 1 and len(n_.body) <= 2 and isinstance(n_.body[-1], ast.Return) and n_.body[-1].value is not None:
+            r_ = n_.body[-1].value
+            if isinstance(r_, ast.Call) and dotted(r_.func) == 'isinstance' and len(r_.args) == 2 and norm(r_.args[0]) == n_.args.args[0].arg \
+                    and (dotted(r_.args[1]) or '').split('.')[-1] == 'Parameter':
+                _PREDICATES[n_.name] = n_
     g, f = _fn(tree, 'get_query_params'), _fn(tree, 'fill_query_params')
     ctx.need(g is not None and f is not None, 'get_query_params / fill_query_params not found in planner/utils.py')
     check_callback(ctx, g, 'found')
